@@ -187,21 +187,24 @@ impl ServerState {
   }
 
   pub fn rename_module(&mut self, renames: Vec<(ModuleReference, ModuleReference)>) {
-    let mut error_set = ErrorSet::new();
     let recheck_set = self
       .dep_graph
       .affected_set(renames.iter().flat_map(|(a, b)| vec![*a, *b].into_iter()).collect());
-    let mut reparsed_set = HashSet::new();
+    // Syntax errors of the renamed modules, keyed by the name they were last parsed under, so that
+    // a name that is renamed again or overwritten later in the same batch leaves no errors behind.
+    let mut parse_errors = HashMap::new();
     for (old_mod_ref, new_mod_ref) in renames {
       if let Some(source) = self.string_sources.remove(&old_mod_ref) {
-        reparsed_set.insert(new_mod_ref);
         self.parsed_modules.remove(&old_mod_ref).unwrap();
+        parse_errors.remove(&old_mod_ref);
+        let mut local_error_set = ErrorSet::new();
         let parsed = samlang_parser::parse_source_module_from_text(
           &source,
           new_mod_ref,
           &mut self.heap,
-          &mut error_set,
+          &mut local_error_set,
         );
+        parse_errors.insert(new_mod_ref, local_error_set);
         self.string_sources.insert(new_mod_ref, source);
         // The signature embeds the module reference in its nominal types, so it must be rebuilt
         // for the new module reference rather than moved.
@@ -210,6 +213,11 @@ impl ServerState {
         self.parsed_modules.insert(new_mod_ref, parsed);
       }
       self.checked_modules.remove(&old_mod_ref);
+    }
+    let reparsed_set = parse_errors.keys().copied().collect::<HashSet<_>>();
+    let mut error_set = ErrorSet::new();
+    for (_, local_error_set) in parse_errors {
+      error_set.merge(local_error_set);
     }
     self.dep_graph = DependencyGraph::new(&self.parsed_modules);
     self.recheck(error_set, &recheck_set, &reparsed_set);
